@@ -154,15 +154,27 @@ class Radar:
         env.pop("RUST_LOG", None)
         env["RUST_BACKTRACE"] = "0"
         argv = [os.path.join(bindir, "radar"), "--host", "127.0.0.1", "--port", str(port), "--log-folder", self.logdir] + list(args)
-        pid, fd = pty.fork()
+        # the pty is created and sized, and its terminal state recorded, *before* the program starts (reading it after
+        # the fork would race with the program switching to raw mode)
+        master, slave = os.openpty()
+        set_winsize(master, size[0], size[1])
+        self.termios_before = termios.tcgetattr(slave)
+        pid = os.fork()
         if pid == 0:
             try:
+                os.close(master)
+                os.setsid()
+                fcntl.ioctl(slave, termios.TIOCSCTTY, 0)
+                os.dup2(slave, 0)
+                os.dup2(slave, 1)
+                os.dup2(slave, 2)
+                if slave > 2:
+                    os.close(slave)
                 os.execve(argv[0], argv, env)
             finally:
                 os._exit(127)
-        self.pid, self.fd = pid, fd
-        set_winsize(fd, size[0], size[1])
-        self.termios_before = termios.tcgetattr(fd)
+        os.close(slave)
+        self.pid, self.fd = pid, master
         self.status = None
 
     def pump(self, timeout=0.05):
